@@ -6,6 +6,12 @@ use super::process::calling_process;
 
 // Infer absolute path to `relative_path`.
 pub fn absolute_path(relative_path: &str, config: &Config) -> Option<PathBuf> {
+    // `delta /abs/a /abs/b`: git diff --no-index names the two files without their leading slash.
+    for file in [config.minus_file.as_ref(), config.plus_file.as_ref()].into_iter().flatten() {
+        if file.is_absolute() && file.strip_prefix("/").ok() == Some(Path::new(relative_path)) {
+            return Some(normalize_path(file.clone()));
+        }
+    }
     match (
         &config.cwd_of_delta_process,
         &config.cwd_of_user_shell_process,
